@@ -23,17 +23,22 @@ pub struct Choice {
   rule: u8,
   stmts: Vec<(u8, u8, u8)>,
   trailing_newline: bool,
+  /// text before the first statement: the root node of the tree then does not start at byte 0
+  lead: u8,
 }
 
 pub fn strategy() -> BoxedStrategy<Choice> {
-  (0u8..9, prop::collection::vec((0u8..10, 0u8..8, 0u8..8), 1..7), any::<bool>())
-    .prop_map(|(rule, stmts, trailing_newline)| Choice {
+  (0u8..9, prop::collection::vec((0u8..10, 0u8..8, 0u8..8), 1..7), any::<bool>(), 0u8..10)
+    .prop_map(|(rule, stmts, trailing_newline, lead)| Choice {
       rule,
       stmts,
       trailing_newline,
+      lead,
     })
     .boxed()
 }
+
+const LEADS: &[&str] = &["", "", "", "", "\n", "\n\n  ", " ", "\u{feff}", "// é\n", "\n\t"];
 
 const ATOMS: &[&str] = &["1", "a", "\"é\"", "b", "22", "foo(3)", "bar(a)", "a"];
 
@@ -75,7 +80,7 @@ const RULES: &[&str] = &[
 ];
 
 pub fn interpret(ch: &Choice, _st: &mut Stats) -> Option<Case> {
-  let mut text = ch.stmts.iter().map(|(k, a, b)| stmt(*k, *a, *b)).collect::<Vec<_>>().join("\n");
+  let mut text = format!("{}{}", LEADS[ch.lead as usize % LEADS.len()], ch.stmts.iter().map(|(k, a, b)| stmt(*k, *a, *b)).collect::<Vec<_>>().join("\n"));
   if ch.trailing_newline {
     text.push('\n');
   }
@@ -340,7 +345,7 @@ pub fn run(cfg: &RunCfg) -> i32 {
     return crate::replay_main::<Case>(cfg, path, check);
   }
   crate::replay_known::<Case>(&mut report, &known, check);
-  let total = cfg.budget(1_000, 10_000);
+  let total = cfg.budget(4_000, 40_000);
   let o = drive(cfg, "fix", total, &known, strategy, interpret, check);
   report.absorb("fix", o);
   cli::cleanup_work_root();
